@@ -122,6 +122,13 @@ Definition opt_dn (i : list byte) : bool * list byte :=
   match i with
   | c0 :: c1 :: c2 :: ((c :: _) as r) => if beq c0 ":"%byte && is_dn c1 c2 && beq c ":"%byte then (true, r) else (false, i)
   | _ => (false, i) end.
+(* the same in the form without an attribute description (dn_mrule), where a matching rule must follow the flag: ":dn:=" can only be the
+   rule named dn, so the flag is not taken when "=" follows the colon (repair F52) *)
+Definition opt_dn_m (i : list byte) : bool * list byte :=
+  match i with
+  | c0 :: c1 :: c2 :: ((c :: r') as r) =>
+      if beq c0 ":"%byte && is_dn c1 c2 && beq c ":"%byte && negb (match r' with e :: _ => beq e "="%byte | [] => false end) then (true, r) else (false, i)
+  | _ => (false, i) end.
 Definition opt_mrule (i : list byte) : option (list byte) * list byte :=   (* opt(preceded(tag(":"), attributetype)) *)
   match tag [":"%byte] i with
   | Some r => match attributetype r with Some (m, r') => (Some m, r') | None => (None, i) end
@@ -137,7 +144,7 @@ Definition attr_dn_mrule (i : list byte) : res tree :=
   match tag [":"; "="]%byte r2 with None => None | Some r3 =>
   match unescaped r3 with None => None | Some (v, r4) => Some (ext_tag_of mr (Some attr) v dn, r4) end end end.
 Definition dn_mrule (i : list byte) : res tree :=
-  let (dn, r1) := opt_dn i in
+  let (dn, r1) := opt_dn_m i in
   match tag [":"%byte] r1 with None => None | Some r1' =>
   match attributetype r1' with None => None | Some (m, r2) =>
   match tag [":"; "="]%byte r2 with None => None | Some r3 =>
@@ -206,4 +213,8 @@ Example t_dnmatch_accepted : enc "(cn:dnMatch:=x)" = Some ([169; 16; 129; 7] ++ 
 Example t_dn_flag_and_rule : enc "(cn:dn:dnMatch:=x)" = Some ([169; 19; 129; 7] ++ bytesN "dnMatch" ++ [130; 2] ++ bytesN "cn" ++ [131; 1] ++ bytesN "x" ++ [132; 1; 255])%list. Proof. vm_compute. reflexivity. Qed.
 (* F37 (the flag was matched in lower case only: "(ou:DN:=People)" went out with matching rule "DN" and no dnAttributes, "(ou:DN:2.5.13.5:=x)" was refused), after the repair: *)
 Example t_dn_upper : enc "(ou:DN:=People)" = enc "(ou:dn:=People)" /\ enc "(ou:dN:2.5.13.5:=x)" = enc "(ou:dn:2.5.13.5:=x)" /\ enc "(:Dn:caseIgnoreMatch:=x)" = enc "(:dn:caseIgnoreMatch:=x)" /\ enc "(ou:DN:2.5.13.5:=x)" <> None. Proof. vm_compute. repeat split; discriminate. Qed.
+(* F52 (without an attribute description ":dn:=" can only be the matching rule named dn; it was refused), after the repair: *)
+Example t_rule_dn_alone : enc "(:dn:=x)" = Some ([169; 7; 129; 2] ++ bytesN "dn" ++ [131; 1] ++ bytesN "x")%list /\ enc "(:DN:=x)" = Some ([169; 7; 129; 2] ++ bytesN "DN" ++ [131; 1] ++ bytesN "x")%list /\
+  enc "(:dn:dn:=x)" = Some ([169; 10; 129; 2] ++ bytesN "dn" ++ [131; 1] ++ bytesN "x" ++ [132; 1; 255])%list /\ enc "(:dn:2.5.13.5:=x)" <> None.
+Proof. vm_compute. repeat split; discriminate. Qed.
 Example t_caseexact_accepted : enc "(cn:caseExactMatch:=x)" <> None. Proof. vm_compute. discriminate. Qed.
